@@ -23,7 +23,12 @@ RULE = ("one operation = one complete key exchange of the real client (NewMTProt
         "alone / last / first / in the middle / among several / next to near-misses in the server's list, each field of {nonce, server_nonce, new_nonce, "
         "new_nonce_hash1, RSA ciphertext, g_a, g_b, g^ab} forced to exactly 0 / 1 / 2 leading zero bytes by "
         "rejection sampling of the free secrets (24 corners), all-zero nonce / server_nonce, new_nonce = 1, "
-        "unbalanced and largest pq; then random honest exchanges (quick 4, thorough 2000, two RSA keys). "
+        "unbalanced and largest pq; then random honest exchanges (quick 4, thorough 2000). The server keys come "
+        "from a pool of 3 (thorough 4) RSA-2048 keys used in turn, so consecutive exchanges of the process never "
+        "use the same key; first in every run, c06.seq operations = several exchanges in ONE operation: three keys "
+        "one after another with the caller's key object fresh / one object reassigned / one object overwritten in "
+        "place, and the client's session storage saying 'nothing stored' as a not-found error, as (nil, nil), or "
+        "failing with another error (then NewMTProto must give up: no client, nothing sent or stored). "
         "distinct = distinct operation lines; each is compared with the Lean client machine run against the Lean "
         "ServerSpec (request bodies, keys, salts, hash, flags, stores on both sides) and judged from the server's "
         "own values")
